@@ -192,6 +192,20 @@ def _mutated_form(draw):
     return line.replace("\n", " ").replace("\r", " ")
 
 
+@st.composite
+def _corpus_line(draw):
+    """An ordinary configuration line, as it is or with a token replaced / inserted."""
+    toks = draw(st.sampled_from(S.CORPUS)).split(" ")
+    k = draw(st.integers(0, 3))
+    if k == 1:
+        toks[draw(st.integers(0, len(toks) - 1))] = draw(_poison())
+    elif k == 2:
+        toks.insert(draw(st.integers(0, len(toks))), draw(st.sampled_from(S.KEYWORDS + ["{", "}", ";"])))
+    elif k == 3:
+        toks = toks[draw(st.integers(0, len(toks) - 1)) :]
+    return " ".join(toks).replace("\n", " ").replace("\r", " ")
+
+
 _soup_tok = st.one_of(st.sampled_from(S.KEYWORDS), st.sampled_from(S.BENIGN), st.sampled_from(POISON), st.sampled_from(WORDS + ASNS + ["7", "0", "5", "1.2.3.4", "::1", "10.0.0.0/8", "255.255.255.0"]))
 _soup = st.lists(_soup_tok, min_size=1, max_size=9).map(lambda t: " ".join(t).replace("\n", " ").replace("\r", " "))
 _addr_soup = st.lists(st.sampled_from(list("0123456789abcdefg.:/% ") + ["fe80", "ffff", "::", "255", "256"]), min_size=1, max_size=30).map("".join)
@@ -202,10 +216,10 @@ _features = st.lists(st.booleans(), min_size=4, max_size=4)
 
 @st.composite
 def _case(draw):
-    gen = draw(st.sampled_from(["unicode", "form", "form", "form", "soup", "addr"]))
-    line = draw({"unicode": _unicode_line, "form": _mutated_form(), "soup": _soup, "addr": _addr_soup}[gen])
+    gen = draw(st.sampled_from(["unicode", "form", "form", "form", "soup", "addr", "corpus"]))
+    line = draw({"unicode": _unicode_line, "form": _mutated_form(), "soup": _soup, "addr": _addr_soup, "corpus": _corpus_line()}[gen])
     feats = draw(_features)
-    if gen == "form" and draw(st.integers(0, 3)):
+    if gen in ("form", "corpus") and draw(st.integers(0, 3)):
         feats[0] = True
     if gen == "addr" and draw(st.integers(0, 3)):
         feats[1] = True
